@@ -28,7 +28,49 @@ type Env struct {
 	insts []string              // extra instantiation terms for universally used quantifiers
 	depth int
 	qd    int // quantifier nesting depth
+	noReg bool
+	iterHeap string // visited-set heap of the map iterator of the enclosing loop
+	noQuant bool
+	guards []string // antecedents enclosing the current position (for registered forall facts)
 }
+
+// forallFact is an assumed "forall i Int :: body": instantiated lazily at index terms.
+type forallFact struct {
+	sort  string
+	guard string
+	outer string
+	inst  func(t string) string
+	done  map[string]bool
+}
+
+// addInstTerm records a term of interest (an index the code reads, an iterator key,
+// a witness) and instantiates every remembered universal fact of that sort at it.
+func (g *Gen) addInstTerm(so, t string) {
+	for _, u := range g.instTerms[so] {
+		if u == t {
+			return
+		}
+	}
+	g.instTerms[so] = append(g.instTerms[so], t)
+	for k := 0; k < len(g.foralls); k++ {
+		if g.foralls[k].sort == so {
+			g.instOne(g.foralls[k], t)
+		}
+	}
+}
+
+func (g *Gen) instOne(ff *forallFact, t string) {
+	if ff.done == nil {
+		ff.done = map[string]bool{}
+	}
+	if ff.done[t] {
+		return
+	}
+	ff.done[t] = true
+	g.s.assumeUnder(ff.guard, imp(ff.outer, ff.inst(t)))
+}
+
+func (g *Gen) instForalls(t string) { g.addInstTerm("Int", t) }
 
 func (e *Env) with(vars map[string]CV) *Env {
 	n := *e
@@ -354,7 +396,14 @@ func (e *Env) bin(x *CE, pos bool) CV {
 	op := x.Name
 	switch op {
 	case "&&", "||":
-		a, b := e.tr(x.Args[0], pos), e.tr(x.Args[1], pos)
+		a := e.tr(x.Args[0], pos)
+		en := e
+		if op == "||" { // a || b: inside b we may assume !a
+			c := *e
+			c.guards = append(append([]string{}, e.guards...), not(a.S))
+			en = &c
+		}
+		b := en.tr(x.Args[1], pos)
 		e.want(a, "Bool", x.Args[0])
 		e.want(b, "Bool", x.Args[1])
 		if op == "&&" {
@@ -362,12 +411,17 @@ func (e *Env) bin(x *CE, pos bool) CV {
 		}
 		return g.cv(or(a.S, b.S), "Bool", nil)
 	case "==>":
-		a, b := e.tr(x.Args[0], !pos), e.tr(x.Args[1], pos)
+		a := e.tr(x.Args[0], !pos)
+		en := *e
+		en.guards = append(append([]string{}, e.guards...), a.S)
+		b := en.tr(x.Args[1], pos)
 		e.want(a, "Bool", x.Args[0])
 		e.want(b, "Bool", x.Args[1])
 		return g.cv(imp(a.S, b.S), "Bool", nil)
 	case "<==>":
-		a, b := e.tr(x.Args[0], pos), e.tr(x.Args[1], pos)
+		en := *e
+		en.noQuant = true
+		a, b := en.tr(x.Args[0], pos), en.tr(x.Args[1], pos)
 		e.want(a, "Bool", x.Args[0])
 		e.want(b, "Bool", x.Args[1])
 		return g.cv(eq(a.S, b.S), "Bool", nil)
@@ -568,6 +622,13 @@ func (e *Env) call(x *CE, pos bool) CV {
 		}
 		k = e.coerce(k, g.mapKeySort(mt))
 		return g.cv("(select "+g.readHeap(e.st, g.mapHasHeap(mt), m.S)+" "+k.S+")", "Bool", nil)
+	case "visited":
+		if e.iterHeap == "" {
+			fail("visited() outside a loop over a map")
+		}
+		k := argv(0)
+		so := splitSort(g.heapSort(e.iterHeap))[1]
+		return g.cv("(select "+g.readHeap(e.st, e.iterHeap, "")+" "+e.coerce(k, so).S+")", "Bool", nil)
 	case "elems":
 		s := argv(0)
 		sl, ok := s.Ty.Underlying().(*types.Slice)
@@ -739,6 +800,9 @@ func (g *Gen) isType(v T, from, to types.Type) string {
 
 func (e *Env) quant(x *CE, pos bool) CV {
 	g := e.g
+	if e.noQuant {
+		fail("quantifier under <==> is not supported: %s", x)
+	}
 	universalUse := (x.Op == "forall") == !(pos != e.hyp) // see below
 	// Polarity table (hyp = we may assume the formula; goal = we must prove it):
 	//   must-prove forall  -> arbitrary skolem (shared per nesting depth)
@@ -748,6 +812,11 @@ func (e *Env) quant(x *CE, pos bool) CV {
 	mayAssume := e.hyp == pos
 	_ = universalUse
 	isAll := x.Op == "forall"
+	if !isAll {
+		if r, ok := e.boundedExists(x, pos); ok {
+			return r
+		}
+	}
 	vars := map[string]CV{}
 	body := func(inst map[string]CV) string {
 		n := e.with(inst)
@@ -768,16 +837,49 @@ func (e *Env) quant(x *CE, pos bool) CV {
 	}
 	switch {
 	case isAll && !mayAssume:
+		if e.hyp {
+			// a universally quantified premise inside an assumption: sound only with fresh
+			// witnesses; the remembered universal facts are instantiated at them
+			m := map[string]CV{}
+			for _, b := range x.Vars {
+				ty, so := g.resolveType(b.Sort)
+				c := g.s.decl("sk."+b.Name, so)
+				m[b.Name] = CV{c, ty}
+				g.addInstTerm(so, c.S)
+			}
+			return g.cv(body(m), "Bool", nil)
+		}
 		return g.cv(body(skolemNames()), "Bool", nil)
 	case isAll && mayAssume:
 		var cs []string
 		cs = append(cs, body(skolemNames()))
 		if len(x.Vars) == 1 {
-			_, so := g.resolveType(x.Vars[0].Sort)
-			ty, _ := g.resolveType(x.Vars[0].Sort)
-			for _, it := range e.insts {
-				if so == "Int" {
+			ty, so := g.resolveType(x.Vars[0].Sort)
+			if so == "Int" {
+				for _, it := range e.insts {
 					cs = append(cs, body(map[string]CV{x.Vars[0].Name: {T{it, so}, ty}}))
+				}
+			}
+			// remember the fact: it is instantiated at every term of that sort the code reads later
+			if !e.noReg {
+				snap := *e
+				snap.st = e.st.clone()
+				snap.vars = map[string]CV{}
+				for k, v := range e.vars {
+					snap.vars[k] = v
+				}
+				name := x.Vars[0].Name
+				outer := and(e.guards...)
+				ff := &forallFact{sort: so, guard: e.pc, outer: outer, inst: func(t string) string {
+					n := snap.with(map[string]CV{name: {T{t, so}, ty}})
+					n.qd = snap.qd + 1
+					n.noReg = true
+					r := n.tr(x.Args[0], pos)
+					return r.S
+				}}
+				g.foralls = append(g.foralls, ff)
+				for _, t := range append([]string{}, g.instTerms[so]...) {
+					g.instOne(ff, t)
 				}
 			}
 		}
@@ -793,4 +895,79 @@ func (e *Env) quant(x *CE, pos bool) CV {
 	}
 	fail("existential quantifier in a position that must be proved (%s): state it with member() or a witness", x)
 	return CV{}
+}
+
+// boundedExists handles "exists i Int :: 0 <= i && i < N && P(i)" as a named
+// recursive predicate ex(N) whose definition is unfolded at N and N-1:
+//   ex(m) = m > 0 && (ex(m-1) || P(m-1))
+// The predicate's identity is the text of P in the current state, so two
+// occurrences denote the same predicate exactly when they read the same heap
+// versions. The unfoldings are consequences of the definition (sound).
+func (e *Env) boundedExists(x *CE, pos bool) (CV, bool) {
+	g := e.g
+	if len(x.Vars) != 1 {
+		return CV{}, false
+	}
+	_, so := g.resolveType(x.Vars[0].Sort)
+	if so != "Int" {
+		return CV{}, false
+	}
+	iv := x.Vars[0].Name
+	// flatten the && chain
+	var conj []*CE
+	var flat func(c *CE)
+	flat = func(c *CE) {
+		if c.Op == "bin" && c.Name == "&&" {
+			flat(c.Args[0])
+			flat(c.Args[1])
+			return
+		}
+		conj = append(conj, c)
+	}
+	flat(x.Args[0])
+	if len(conj) < 3 {
+		return CV{}, false
+	}
+	lo, hi := conj[0], conj[1]
+	if !(lo.Op == "bin" && lo.Name == "<=" && lo.Args[0].Op == "num" && lo.Args[0].Name == "0" && lo.Args[1].Op == "ident" && lo.Args[1].Name == iv) {
+		return CV{}, false
+	}
+	if !(hi.Op == "bin" && hi.Name == "<" && hi.Args[0].Op == "ident" && hi.Args[0].Name == iv) {
+		return CV{}, false
+	}
+	n := e.tr(hi.Args[1], pos)
+	e.want(n, "Int", hi.Args[1])
+	rest := conj[2]
+	for _, c := range conj[3:] {
+		rest = &CE{Op: "bin", Name: "&&", Args: []*CE{rest, c}}
+	}
+	body := func(t string) string {
+		en := e.with(map[string]CV{iv: {T{t, "Int"}, nil}})
+		en.noQuant = true
+		g.s.noDef++
+		r := en.tr(rest, pos)
+		g.s.noDef--
+		e.want(r, "Bool", rest)
+		return r.S
+	}
+	probe := g.s.decl("exq", "Int")
+	canon := strings.ReplaceAll(body(probe.S), probe.S, "?")
+	id := g.exIDs[canon]
+	if id == "" {
+		id = fmt.Sprintf("ex.%d", len(g.exIDs))
+		g.exIDs[canon] = id
+		g.s.lines = append(g.s.lines, "(declare-fun "+id+" (Int) Bool)")
+	}
+	cur := n.S
+	for d := 0; d < 2; d++ {
+		key := id + "|" + cur
+		if g.memSeen[key] {
+			break
+		}
+		g.memSeen[key] = true
+		prev := "(- " + cur + " 1)"
+		g.s.assume(eq(app(id, cur), and("(> "+cur+" 0)", or(app(id, prev), body(prev)))))
+		cur = prev
+	}
+	return g.cv(app(id, n.S), "Bool", nil), true
 }
